@@ -166,6 +166,7 @@ package container
 //@   && (forall i int :: {:pattern s.outOffsets[i]} 0 <= i && i <= len(s.denseIdxToID) ==> s.outOffsets[i] <= len(s.outAdj))
 //@   && (forall i int :: {:pattern s.inOffsets[i]} 0 <= i && i <= len(s.denseIdxToID) ==> s.inOffsets[i] <= len(s.inAdj))
 //@   && (forall k uint64 :: k in s.idToDenseIdx ==> s.idToDenseIdx[k] < len(s.denseIdxToID))
+//@   && (forall i int :: {:pattern s.denseIdxToID[i]} 0 <= i && i < len(s.denseIdxToID) ==> s.denseIdxToID[i] in s.idToDenseIdx && s.idToDenseIdx[s.denseIdxToID[i]] == i)
 //@ }
 
 //@ func (s *csrDigraph) idx(node uint64) (uint64, bool)
@@ -215,6 +216,7 @@ package container
 //@ pure func cbWF(s *CSRDigraphBuilder) bool {
 //@   s.idToDenseIdx != nil && s.outTmp != nil && s.inTmp != nil
 //@   && (forall k uint64 :: k in s.idToDenseIdx ==> s.idToDenseIdx[k] < len(s.denseIdxToID))
+//@   && (forall i int :: {:pattern s.denseIdxToID[i]} 0 <= i && i < len(s.denseIdxToID) ==> s.denseIdxToID[i] in s.idToDenseIdx && s.idToDenseIdx[s.denseIdxToID[i]] == i)
 //@ }
 //@ func (s *CSRDigraphBuilder) ensureNode(id uint64) uint64
 //@   requires s != nil && cbWF(s)
@@ -248,6 +250,7 @@ package container
 //@     invariant cappedOut: forall i int :: {:pattern outOffsets[i]} 0 <= i && i <= nextNode ==> outOffsets[i] <= outTotal
 //@     invariant cappedIn: forall i int :: {:pattern inOffsets[i]} 0 <= i && i <= nextNode ==> inOffsets[i] <= inTotal
 //@     invariant ids: forall k uint64 :: k in s.idToDenseIdx ==> s.idToDenseIdx[k] < len(s.denseIdxToID)
+//@     invariant names: forall i int :: {:pattern s.denseIdxToID[i]} 0 <= i && i < len(s.denseIdxToID) ==> s.denseIdxToID[i] in s.idToDenseIdx && s.idToDenseIdx[s.denseIdxToID[i]] == i
 //@   loop 1
 //@     invariant tables: numNodes == len(s.denseIdxToID) && len(outOffsets) == numNodes + 1 && len(inOffsets) == numNodes + 1 && len(outAdj) == outTotal && len(inAdj) == inTotal
 //@     invariant apart: fresh(outOffsets.arr) && fresh(inOffsets.arr) && fresh(outAdj.arr) && fresh(inAdj.arr) && outOffsets.arr != inOffsets.arr && outAdj.arr != outOffsets.arr && outAdj.arr != inOffsets.arr && inAdj.arr != outOffsets.arr && inAdj.arr != inOffsets.arr && (outAdj.arr != inAdj.arr || outTotal == 0 || inTotal == 0)
@@ -256,6 +259,7 @@ package container
 //@     invariant cappedOut: forall i int :: {:pattern outOffsets[i]} 0 <= i && i <= numNodes ==> outOffsets[i] <= outTotal
 //@     invariant cappedIn: forall i int :: {:pattern inOffsets[i]} 0 <= i && i <= numNodes ==> inOffsets[i] <= inTotal
 //@     invariant ids: forall k uint64 :: k in s.idToDenseIdx ==> s.idToDenseIdx[k] < len(s.denseIdxToID)
+//@     invariant names: forall i int :: {:pattern s.denseIdxToID[i]} 0 <= i && i < len(s.denseIdxToID) ==> s.denseIdxToID[i] in s.idToDenseIdx && s.idToDenseIdx[s.denseIdxToID[i]] == i
 //@ func NewCSRDigraphBuilder() DigraphBuilder
 //@   nomod
 //@   ensures typeof(result) == *CSRDigraphBuilder && result.(*CSRDigraphBuilder) != nil && fresh(result.(*CSRDigraphBuilder))
@@ -271,17 +275,32 @@ package container
 //@   loop 0
 //@     invariant range: -1 <= rangeindex && rangeindex < len(s.denseIdxToID)
 //@     invariant shape: newGraph != nil && fresh(newGraph) && newGraph.idToDenseIdx != nil && len(newGraph.denseIdxToID) == len(s.denseIdxToID) && len(newGraph.outOffsets) == len(s.outOffsets) && len(newGraph.inOffsets) == len(s.inOffsets) && len(newGraph.outAdj) == len(s.outAdj) && len(newGraph.inAdj) == len(s.inAdj)
-//@     invariant apart: fresh(newGraph.denseIdxToID.arr) && fresh(newGraph.outOffsets.arr) && fresh(newGraph.inOffsets.arr) && fresh(newGraph.outAdj.arr) && fresh(newGraph.inAdj.arr) && newGraph.outOffsets.arr != newGraph.inOffsets.arr && newGraph.outOffsets.arr != newGraph.denseIdxToID.arr && newGraph.inOffsets.arr != newGraph.denseIdxToID.arr && (newGraph.outAdj.arr != newGraph.outOffsets.arr || len(s.outAdj) == 0) && (newGraph.outAdj.arr != newGraph.inOffsets.arr || len(s.outAdj) == 0) && (newGraph.inAdj.arr != newGraph.outOffsets.arr || len(s.inAdj) == 0) && (newGraph.inAdj.arr != newGraph.inOffsets.arr || len(s.inAdj) == 0)
+//@     invariant apart: fresh(newGraph.denseIdxToID.arr) && fresh(newGraph.outOffsets.arr) && fresh(newGraph.inOffsets.arr) && fresh(newGraph.outAdj.arr) && fresh(newGraph.inAdj.arr) && newGraph.outOffsets.arr != newGraph.inOffsets.arr && newGraph.outOffsets.arr != newGraph.denseIdxToID.arr && newGraph.inOffsets.arr != newGraph.denseIdxToID.arr && (newGraph.outAdj.arr != newGraph.denseIdxToID.arr || len(s.outAdj) == 0) && (newGraph.inAdj.arr != newGraph.denseIdxToID.arr || len(s.inAdj) == 0) && (newGraph.outAdj.arr != newGraph.outOffsets.arr || len(s.outAdj) == 0) && (newGraph.outAdj.arr != newGraph.inOffsets.arr || len(s.outAdj) == 0) && (newGraph.inAdj.arr != newGraph.outOffsets.arr || len(s.inAdj) == 0) && (newGraph.inAdj.arr != newGraph.inOffsets.arr || len(s.inAdj) == 0)
 //@     invariant ids: forall k uint64 :: k in newGraph.idToDenseIdx ==> newGraph.idToDenseIdx[k] < len(s.denseIdxToID)
+//@     invariant names: forall i int :: {:pattern newGraph.denseIdxToID[i]} 0 <= i && i <= rangeindex ==> newGraph.denseIdxToID[i] == i && i in newGraph.idToDenseIdx && newGraph.idToDenseIdx[i] == i
+//@     invariant keys: forall k uint64 :: k in newGraph.idToDenseIdx ==> newGraph.idToDenseIdx[k] == k && k <= rangeindex
 //@   loop 1
 //@     invariant range: -1 <= rangeindex
 //@     invariant shape: newGraph != nil && fresh(newGraph) && newGraph.idToDenseIdx != nil && len(newGraph.denseIdxToID) == len(s.denseIdxToID) && len(newGraph.outOffsets) == len(s.outOffsets) && len(newGraph.inOffsets) == len(s.inOffsets) && len(newGraph.outAdj) == len(s.outAdj) && len(newGraph.inAdj) == len(s.inAdj)
-//@     invariant apart: fresh(newGraph.denseIdxToID.arr) && fresh(newGraph.outOffsets.arr) && fresh(newGraph.inOffsets.arr) && fresh(newGraph.outAdj.arr) && fresh(newGraph.inAdj.arr) && newGraph.outOffsets.arr != newGraph.inOffsets.arr && newGraph.outOffsets.arr != newGraph.denseIdxToID.arr && newGraph.inOffsets.arr != newGraph.denseIdxToID.arr && (newGraph.outAdj.arr != newGraph.outOffsets.arr || len(s.outAdj) == 0) && (newGraph.outAdj.arr != newGraph.inOffsets.arr || len(s.outAdj) == 0) && (newGraph.inAdj.arr != newGraph.outOffsets.arr || len(s.inAdj) == 0) && (newGraph.inAdj.arr != newGraph.inOffsets.arr || len(s.inAdj) == 0)
+//@     invariant apart: fresh(newGraph.denseIdxToID.arr) && fresh(newGraph.outOffsets.arr) && fresh(newGraph.inOffsets.arr) && fresh(newGraph.outAdj.arr) && fresh(newGraph.inAdj.arr) && newGraph.outOffsets.arr != newGraph.inOffsets.arr && newGraph.outOffsets.arr != newGraph.denseIdxToID.arr && newGraph.inOffsets.arr != newGraph.denseIdxToID.arr && (newGraph.outAdj.arr != newGraph.denseIdxToID.arr || len(s.outAdj) == 0) && (newGraph.inAdj.arr != newGraph.denseIdxToID.arr || len(s.inAdj) == 0) && (newGraph.outAdj.arr != newGraph.outOffsets.arr || len(s.outAdj) == 0) && (newGraph.outAdj.arr != newGraph.inOffsets.arr || len(s.outAdj) == 0) && (newGraph.inAdj.arr != newGraph.outOffsets.arr || len(s.inAdj) == 0) && (newGraph.inAdj.arr != newGraph.inOffsets.arr || len(s.inAdj) == 0)
 //@     invariant ids: forall k uint64 :: k in newGraph.idToDenseIdx ==> newGraph.idToDenseIdx[k] < len(s.denseIdxToID)
+//@     invariant names: forall i int :: {:pattern newGraph.denseIdxToID[i]} 0 <= i && i < len(s.denseIdxToID) ==> newGraph.denseIdxToID[i] == i && i in newGraph.idToDenseIdx && newGraph.idToDenseIdx[i] == i
 //@     invariant offsets: (forall i int :: {:pattern newGraph.outOffsets[i]} 0 <= i && i < len(s.outOffsets) ==> newGraph.outOffsets[i] == s.outOffsets[i]) && (forall i int :: {:pattern newGraph.inOffsets[i]} 0 <= i && i < len(s.inOffsets) ==> newGraph.inOffsets[i] == s.inOffsets[i])
 //@   loop 2
 //@     invariant range: -1 <= rangeindex
 //@     invariant shape: newGraph != nil && fresh(newGraph) && newGraph.idToDenseIdx != nil && len(newGraph.denseIdxToID) == len(s.denseIdxToID) && len(newGraph.outOffsets) == len(s.outOffsets) && len(newGraph.inOffsets) == len(s.inOffsets) && len(newGraph.outAdj) == len(s.outAdj) && len(newGraph.inAdj) == len(s.inAdj)
-//@     invariant apart: fresh(newGraph.denseIdxToID.arr) && fresh(newGraph.outOffsets.arr) && fresh(newGraph.inOffsets.arr) && fresh(newGraph.outAdj.arr) && fresh(newGraph.inAdj.arr) && newGraph.outOffsets.arr != newGraph.inOffsets.arr && newGraph.outOffsets.arr != newGraph.denseIdxToID.arr && newGraph.inOffsets.arr != newGraph.denseIdxToID.arr && (newGraph.outAdj.arr != newGraph.outOffsets.arr || len(s.outAdj) == 0) && (newGraph.outAdj.arr != newGraph.inOffsets.arr || len(s.outAdj) == 0) && (newGraph.inAdj.arr != newGraph.outOffsets.arr || len(s.inAdj) == 0) && (newGraph.inAdj.arr != newGraph.inOffsets.arr || len(s.inAdj) == 0)
+//@     invariant apart: fresh(newGraph.denseIdxToID.arr) && fresh(newGraph.outOffsets.arr) && fresh(newGraph.inOffsets.arr) && fresh(newGraph.outAdj.arr) && fresh(newGraph.inAdj.arr) && newGraph.outOffsets.arr != newGraph.inOffsets.arr && newGraph.outOffsets.arr != newGraph.denseIdxToID.arr && newGraph.inOffsets.arr != newGraph.denseIdxToID.arr && (newGraph.outAdj.arr != newGraph.denseIdxToID.arr || len(s.outAdj) == 0) && (newGraph.inAdj.arr != newGraph.denseIdxToID.arr || len(s.inAdj) == 0) && (newGraph.outAdj.arr != newGraph.outOffsets.arr || len(s.outAdj) == 0) && (newGraph.outAdj.arr != newGraph.inOffsets.arr || len(s.outAdj) == 0) && (newGraph.inAdj.arr != newGraph.outOffsets.arr || len(s.inAdj) == 0) && (newGraph.inAdj.arr != newGraph.inOffsets.arr || len(s.inAdj) == 0)
 //@     invariant ids: forall k uint64 :: k in newGraph.idToDenseIdx ==> newGraph.idToDenseIdx[k] < len(s.denseIdxToID)
+//@     invariant names: forall i int :: {:pattern newGraph.denseIdxToID[i]} 0 <= i && i < len(s.denseIdxToID) ==> newGraph.denseIdxToID[i] == i && i in newGraph.idToDenseIdx && newGraph.idToDenseIdx[i] == i
 //@     invariant offsets: (forall i int :: {:pattern newGraph.outOffsets[i]} 0 <= i && i < len(s.outOffsets) ==> newGraph.outOffsets[i] == s.outOffsets[i]) && (forall i int :: {:pattern newGraph.inOffsets[i]} 0 <= i && i < len(s.inOffsets) ==> newGraph.inOffsets[i] == s.inOffsets[i])
+
+// EachNode of the CSR graph: every registered id is handed to the delegate exactly once (the bijection between ids and
+// dense indices in csrWF rules out duplicates), none after the delegate said stop.
+//@ func (s *csrDigraph) EachNode(delegate func(node uint64) bool)
+//@   requires s != nil && csrWF(s)
+//@   nosafety
+//@   iterates set(s.denseIdxToID) with delegate
+//@   loop 0
+//@     invariant range: -1 <= rangeindex && rangeindex < len(s.denseIdxToID)
+//@     invariant going: !stopped
+//@     invariant sofar: forall y uint64 :: (y in delivered) == (exists i int :: 0 <= i && i <= rangeindex && s.denseIdxToID[i] == y)
